@@ -21,11 +21,11 @@ theorem closeN_closes (evs : List Ev) : (closes evs).length = closeN evs := by
 /-- a module of `X` that is alive and not closed in `evs` is a live module of the state after the departures -/
 theorem stays_of_not_closed {X A2 : A} (evs : List Ev) (hXm : (applyDepartures X evs).mods = A2.mods) {am : AMod}
     (hmem : am ∈ X.mods) (hnc : (closes evs).contains am.uid = false) : am ∈ A2.mods := by
-  rw [← hXm, applyDepartures_eq]
+  rw [← hXm, applyDepartures_map]
   refine List.mem_map.mpr ⟨am, hmem, ?_⟩
   unfold killIn; rw [hnc]; rfl
 
-theorem dep_c14_end {cfg : Cfg} {A2 X : A} {s2 : State} (hs : Sim cfg A2 s2) (ao : AllOpen s2) (evs : List Ev)
+theorem dep_c14_end {cfg : Cfg} {A2 X : A} {s2 : State} (hs : SimM cfg A2 s2) (ao : AllOpen s2) (evs : List Ev)
     (hXm : (applyDepartures X evs).mods = A2.mods) (hXw : X.w = A2.w) (hXf : X.fail = A2.fail)
     (hp : ∀ (o : Nat) (d : Int) (U : List Nat), U.Nodup → PostC cfg o d U s2 evs 0) :
     ∀ o ∈ dfobs cfg X evs, ∀ m ∈ dowed cfg X evs,
@@ -75,7 +75,7 @@ theorem dep_c14_end {cfg : Cfg} {A2 X : A} {s2 : State} (hs : Sim cfg A2 s2) (ao
 theorem depCount_frame {cfg : Cfg} (ok : CfgOK cfg) (hfuel : cfg.fuel = 0) (hperm : OrdPerm cfg)
     {s s2 : State} (h : Top cfg s) (rd : Read) (hq : s2 = readOne cfg s rd ∨ s2 = ticks cfg (readOne cfg s rd))
     (evs : List Ev) (he : s2.out = s.out ++ Ev.rd rd.uid :: evs)
-    {A2 X : A} (hs : Sim cfg A2 s2)
+    {A2 X : A} (hs : SimM cfg A2 s2)
     (hXm : (applyDepartures X evs).mods = A2.mods) (hXw : X.w = A2.w) (hXf : X.fail = A2.fail) (md : Option Nat) :
     ErrExt ["C07"] X (checkDepartures cfg X md evs) := by
   have hall := OrdAll_of_perm hperm
@@ -96,11 +96,11 @@ theorem depCount_frame {cfg : Cfg} (ok : CfgOK cfg) (hfuel : cfg.fuel = 0) (hper
 theorem seg_tail_c14 {cfg : Cfg} (ok : CfgOK cfg) (hfuel : cfg.fuel = 0) (hperm : OrdPerm cfg)
     {s s2 : State} (h : Top cfg s) (rd : Read) (hq : s2 = readOne cfg s rd ∨ s2 = ticks cfg (readOne cfg s rd))
     (evs : List Ev) (he : s2.out = s.out ++ Ev.rd rd.uid :: evs)
-    {A2 X W : A} (md : Option Nat) (hs : Sim cfg A2 s2) (hA2 : A2 = applyDepartures W evs)
+    {A2 X W : A} (md : Option Nat) (hs : SimM cfg A2 s2) (hA2 : A2 = applyDepartures W evs)
     (hW : ErrExt ["C06"] (checkDepartures cfg X md evs) W) (hn : NoErr "C14" X) : NoErr "C14" A2 := by
   have hD := checkDepartures_ext cfg X md evs
   have hm : (applyDepartures X evs).mods = A2.mods := by
-    rw [hA2, applyDepartures_eq, applyDepartures_eq]
+    rw [hA2, applyDepartures_map, applyDepartures_map]
     show List.map _ X.mods = List.map _ W.mods
     rw [hW.mods, hD.mods]
   have hw : X.w = A2.w := by rw [hA2, (applyDepartures_core W evs).2.2.1, hW.w, hD.w]
